@@ -169,7 +169,7 @@ func pickEv(r *RNG) string {
 	return "w"
 }
 
-// exactCfg: a configuration the model mirrors exactly (NoSort, no symmetry de-duplication).
+// exactCfg: a configuration the model mirrors exactly (NoSort).
 func exactCfg(c *Ctx, size int, precise bool) cfgSpec {
 	r := c.R
 	s := cfgSpec{size: size, depth: pickDepth(r, size, c.Thorough()), tbl: -1, seed: 1, ev: pickEv(r)}
@@ -191,6 +191,8 @@ func exactCfg(c *Ctx, size int, precise bool) cfgSpec {
 	if r.Chance(1, 8) {
 		s.me = 1 + r.Intn(400)
 	}
+	// symmetry de-duplication only acts in the first plies; the model mirrors it through the symmetry model
+	s.dd = r.Chance(1, 4)
 	return s
 }
 
@@ -326,6 +328,9 @@ func genC05(c *Ctx) {
 			c.Count("A.precise")
 		} else {
 			c.Count("A.heuristic")
+		}
+		if s.dd && p.MoveNumber() < 4 {
+			c.Count("A.dedup-active(ply<4)")
 		}
 		out := c.Emit("search " + s.tok() + " " + encPos(p))
 		tagSearchOut(c, "A", out)
@@ -499,6 +504,14 @@ func analyzeDirect(e *engine, p *tak.Position) ([]tak.Move, int64, ai.Stats) {
 
 func genC16(c *Ctx) {
 	r := c.R
+	if c.Thorough() && c.Shard == 0 {
+		// data-race clause: supporting evidence only (see raceCheck)
+		res, detail := raceCheck()
+		c.Count("race-detector(supporting-evidence-only): " + detail)
+		if res != "ok" {
+			c.Emit("racecheck")
+		}
+	}
 	bud := newBudget(c, 2400000, 160000000)
 	for k := 0; !bud.spent() && k < 20000; k++ {
 		size := pickSize(r)
